@@ -340,6 +340,20 @@ class StmtMixin:
         """Equivalent statement for some iterables: itertools.chain(a, b) -> one loop after the other; a generator expression or
         list comprehension -> nested for/if; iter(f, sentinel) -> while True: x = f(); if x is sentinel: break."""
         it = n.iter
+        if isinstance(it, ast.Name):
+            # name = (generator expression) ... for x in name: a generator runs while it is iterated, so the loop is the loop over
+            # the expression itself - provided this is the only use of the name and nothing it reads is rebound in between
+            uses = [x for x in ast.walk(fx.func.node) if isinstance(x, ast.Name) and x.id == it.id]
+            asg = [x for x in ast.walk(fx.func.node) if isinstance(x, ast.Assign) and len(x.targets) == 1 and isinstance(x.targets[0], ast.Name)
+                   and x.targets[0].id == it.id]
+            if len(uses) == 2 and len(asg) == 1 and isinstance(asg[0].value, ast.GeneratorExp) and it.id not in fx.func.params:
+                read = {x.id for x in ast.walk(asg[0].value) if isinstance(x, ast.Name) and isinstance(x.ctx, ast.Load)}
+                lo, hi = asg[0].lineno, n.lineno
+                rebound = any(isinstance(x, ast.Name) and isinstance(x.ctx, ast.Store) and x.id in read and lo < getattr(x, "lineno", 0) < hi
+                              for x in ast.walk(fx.func.node))
+                if not rebound and lo < hi:
+                    n2 = ast.copy_location(ast.For(target=n.target, iter=asg[0].value, body=n.body, orelse=n.orelse), n)
+                    return self._desugared_for(n2, st, fx)
         if isinstance(it, ast.Call) and not it.keywords and not any(isinstance(a, ast.Starred) for a in it.args):
             nm = it.func.attr if isinstance(it.func, ast.Attribute) else (it.func.id if isinstance(it.func, ast.Name) else None)
             if nm == "chain" and it.args and not n.orelse and not any(isinstance(x, (ast.Break,)) for b in n.body for x in ast.walk(b)):
